@@ -232,6 +232,15 @@ struct c20_session : public vsim_session {
         for (int id : ids) o << " " << id;
         o << " |";
         for (auto const &g : c->atomic_gradients) o << " " << vs_hex(g.x) << " " << vs_hex(g.y) << " " << vs_hex(g.z);
+        o << " |";
+        for (size_t i = 0; i < c->cvcs.size(); i++) o << " " << (c->cvcs[i]->is_enabled() ? 1 : 0);
+        o << " |";
+        for (size_t i = 0; i < c->cvcs.size(); i++) {
+          // contribution of a component to a linear combination (colvar::collect_cvc_values): sup_coeff * value
+          cvm::real const contrib = (c->cvcs[i]->value().type() == colvarvalue::type_scalar && c->cvcs[i]->sup_np == 1) ?
+            c->cvcs[i]->sup_coeff * c->cvcs[i]->value().real_value : std::nan("");
+          o << " " << vs_hex(contrib);
+        }
         o << "\n";
       }
       for (colvarbias *b : cv->biases) o << "SEMBIAS " << b->name << " " << vs_hex(b->get_energy()) << "\n";
